@@ -270,15 +270,15 @@ def render_module(prog, mi, order=None):
     return "\n".join(parts)
 
 
-def write_package(prog, srcdir):
+def write_package(prog, srcdir, pkg=None, orders=None):
     import os
-    d = os.path.join(srcdir, PKG)
+    d = os.path.join(srcdir, pkg or PKG)
     os.makedirs(d, exist_ok=True)
     with open(os.path.join(d, "__init__.py"), "w") as f:
         f.write("")
     for mi, name in enumerate(prog["modules"]):
         with open(os.path.join(d, name + ".py"), "w") as f:
-            f.write(render_module(prog, mi))
+            f.write(render_module(prog, mi, order=(orders or {}).get(str(mi))))
 
 
 # ----------------------------------------------------------------------------- reference semantics
